@@ -1257,6 +1257,9 @@ class Executor:
             ok = V.no_poison(base, 'nuw' if op[0] == 'u' else 'nsw', a[0], a[1], r, bits)
             ov = int(not ok) if isinstance(ok, bool) else z3.Not(ok)
             return (r, ov)
+        if op in ('va_start', 'va_end', 'va_copy'):
+            # variadic argument lists are only consumed by formatting stubs (vasprintf/vsnprintf), which ignore them
+            return None
         raise Unsupported('intrinsic ' + name)
 
     def _pin(self, st, p, fr, ins):
